@@ -544,6 +544,12 @@ ANIcreate_ann_tree(int32    an_id,/* IN: annotation interface id */
         if (tbbtdins(file_rec->an_tree[type], ann_entry, ann_key) == NULL)
             HE_REPORT_GOTO("failed to insert annotation into 'type' tree", FAIL);
 
+        /* the tree and the atom group own these now; a failure in a later
+           iteration must not free them */
+        ann_key   = NULL;
+        ann_entry = NULL;
+        ann_node  = NULL;
+
         /* set read on next annotation */
         more_anns = Hnextread(aid, ann_tag, DFREF_WILDCARD, DF_CURRENT);
     } /* end for "more_anns" */
